@@ -768,17 +768,17 @@ example : Inv (ofBytes [0x61, 0xC3, 0xA9, 0xFF]) ∧ (ofBytes [0x61, 0xC3, 0xA9,
 the RFC 3629 encoding of any non-zero scalar values holds, after `Transform(f)`, exactly the table images of its characters
 in order (`applyF`: the entry's `upper` / `lower` field where a page exists, the character itself where none does), minus
 those the table maps to "no character" (0); the parser is at rest, `rawsize` is the number of bytes of the new text, and
-the transformation `f` is what the object's parser has installed from now on. So `count()` never grows, and it is unchanged
+the transformation installed in the object's parser is the one that was there before the call (`g`), not `f`. So `count()` never grows, and it is unchanged
 when the table maps none of the characters to 0. -/
 theorem utf8_case_agrees (cm : CharMap) (f : Func) (cps : List Nat) (h : ValidCps cps) (g : Func) :
     transformT cm f { u := ofBytes (encodeAll cps), func := g }
-      = { u := { parser := .p0, store := outF cm f (cps.map pack), rawSize := bytesOf (outF cm f (cps.map pack)) }, func := f }
+      = { u := { parser := .p0, store := outF cm f (cps.map pack), rawSize := bytesOf (outF cm f (cps.map pack)) }, func := g }
     ∧ (transformT cm f { u := ofBytes (encodeAll cps), func := g }).u.store.length ≤ cps.length
     ∧ ((∀ c ∈ cps, applyF cm f (pack c) ≠ 0) →
         (transformT cm f { u := ofBytes (encodeAll cps), func := g }).u.store = cps.map fun c => applyF cm f (pack c)) := by
   have hs : (ofBytes (encodeAll cps)).store = cps.map pack := by rw [decode_valid_agrees_partial cps h]
   have key : transformT cm f { u := ofBytes (encodeAll cps), func := g }
-      = { u := { parser := .p0, store := outF cm f (cps.map pack), rawSize := bytesOf (outF cm f (cps.map pack)) }, func := f } := by
+      = { u := { parser := .p0, store := outF cm f (cps.map pack), rawSize := bytesOf (outF cm f (cps.map pack)) }, func := g } := by
     have e := transformT_eq cm f { u := ofBytes (encodeAll cps), func := g }
     have eu : (transformT cm f { u := ofBytes (encodeAll cps), func := g }).u
         = { parser := .p0, store := outF cm f (cps.map pack), rawSize := bytesOf (outF cm f (cps.map pack)) } := by
@@ -840,31 +840,170 @@ theorem utf8_case_total (cm : CharMap) (t : TStr) (op : TOp) (hi : Inv t.u) : In
 
 example : Inv ({ u := ofBytes [0x61, 0xFF, 0xC3], func := .lower } : TStr).u := ofBytes_inv _
 
-/-- **utf8_append_after_transform.** What `append(string)` stores on an object whose parser is at rest: for EVERY byte
-string (well-formed or not) the characters the independent look-ahead decoder finds in it (`decode_illformed`), each
-passed through the transformation INSTALLED in the object — which is `TransformNop` for a fresh object and, since
-`Transform(func)` never restores `parser.func`, the transformation of the last `toupper()` / `tolower()` otherwise
-(`clear()` does not reset it): finding `C18.utf8_transform_sticky`. -/
-theorem utf8_append_after_transform (cm : CharMap) (t : TStr) (text : List UInt8) (hp : t.u.parser = .p0) :
-    (appendBytesT cm t text).u.store
-      = t.u.store ++ outF cm t.func (((BlocV.Spec.Utf8.lenient text).filter (· ≠ 0)).map pack)
-    ∧ (appendBytesT cm t text).func = t.func
-    ∧ (clearT (transformT cm .upper t)).func = .upper ∧ (clearT (transformT cm .lower t)).func = .lower := by
-  refine ⟨?_, rfl, rfl, rfl⟩
-  simp only [appendBytesT]
-  rw [foldl_writeByteF, hp, emit_bytes]
+/-- no call of the method table changes the transformation installed in the object's parser (since the repair of
+`C18.utf8_transform_sticky`: `Transform(func)` puts it back) -/
+theorem tstep_func (cm : CharMap) (t : TStr) (op : TOp) : (tstep cm t op).func = t.func := by
+  cases op with
+  | toupper => rfl
+  | tolower => rfl
+  | appendL s => cases s <;> rfl
+  | append c => cases c <;> rfl
+  | clear => rfl
+
+/-- … hence none of a whole history does -/
+theorem trun_func (cm : CharMap) : ∀ (ops : List TOp) (t : TStr), (ops.foldl (tstep cm) t).func = t.func := by
+  intro ops
+  induction ops with
+  | nil => intro t; rfl
+  | cons op ops ih => intro t; simp only [List.foldl_cons]; rw [ih, tstep_func]
+
+/-- **utf8_append_after_transform** (positive since the repair of `C18.utf8_transform_sticky`). On an object the plugin
+created (`TransformNop` installed), after ANY history of `toupper` / `tolower` / `append` / `clear` calls, for EVERY table and
+EVERY byte string (well-formed or not): `append(string)` stores exactly what it stores on a fresh object in the same state —
+it is the plain `WriteByte` loop of Model/Mod/Utf8.lean (`appendBytes`), the transformations that ran before leave no
+trace in the parser; so, with the parser at rest, the characters appended are the ones the independent look-ahead decoder
+finds in the text (`decode_illformed`), untransformed. -/
+theorem utf8_append_after_transform (cm : CharMap) (t0 : TStr) (h0 : t0.func = .nop) (ops : List TOp) (text : List UInt8) :
+    let t := ops.foldl (tstep cm) t0
+    (appendBytesT cm t text).u = appendBytes t.u text
+    ∧ (appendBytesT cm t text).func = .nop
+    ∧ (t.u.parser = .p0 →
+        (appendBytesT cm t text).u.store = t.u.store ++ ((BlocV.Spec.Utf8.lenient text).filter (· ≠ 0)).map pack) := by
+  intro t
+  have hf : t.func = .nop := by rw [trun_func]; exact h0
+  have e : (appendBytesT cm t text).u = appendBytes t.u text := by
+    simp only [appendBytesT, appendBytes, hf]
+    exact foldl_writeByteF_nop cm text t.u
+  refine ⟨e, hf, ?_⟩
+  intro hp
+  rw [e]
+  simp only [appendBytes]
+  rw [(foldl_writeByte text t.u).1, hp, emit_bytes]
   simp [lenientPacked, BlocV.Spec.Utf8.lenient]
 
-/-- **utf8_transform_sticky_witness** (finding `C18.utf8_transform_sticky`, by evaluation): `U = utf8("ab"); U.toupper()`
-holds `AB`; `U.append("cd")` then holds `ABCD` — the appended text is upper-cased too — and after `U.clear()`,
-`U.append("a")` holds `A`; `U.append(0x61)` (integer) is not transformed. -/
+example : ({ u := ofBytes [0x61, 0x62] } : TStr).func = .nop
+    ∧ ([TOp.toupper, .appendL (some [0x63]), .clear, .tolower].foldl (tstep cmEx) { u := ofBytes [0x61, 0x62] }).u.parser = .p0 := by
+  decide +kernel
+
+/-- **utf8_transform_sticky_witness** — regression witness of the repaired finding `C18.utf8_transform_sticky` (by
+evaluation, with a table that upper-cases `a`): `U = utf8("ab"); U.toupper()` holds `A b`; `U.append("ad")` then holds
+`A b a d` — the appended text is stored as given (it was `A b A d`); after `U.clear()`, `U.append("a")` holds `a` (was `A`);
+`U.append(0x61)` (integer) stores `a`; the transformation installed is still `TransformNop`. -/
 theorem utf8_transform_sticky_witness :
     let t1 := tstep cmEx { u := ofBytes [0x61, 0x62] } .toupper
     let t2 := tstep cmEx t1 (.appendL (some [0x61, 0x64]))
     let t3 := tstep cmEx (tstep cmEx t2 .clear) (.appendL (some [0x61]))
     let t4 := tstep cmEx t3 (.append (some 0x61))
-    t1.u.store = [0x41, 0x62] ∧ t2.u.store = [0x41, 0x62, 0x41, 0x64] ∧ t3.u.store = [0x41] ∧ t4.u.store = [0x41, 0x61]
-    ∧ t4.func = .upper := by decide +kernel
+    t1.u.store = [0x41, 0x62] ∧ t2.u.store = [0x41, 0x62, 0x61, 0x64] ∧ t3.u.store = [0x61] ∧ t4.u.store = [0x61, 0x61]
+    ∧ t4.func = .nop := by decide +kernel
+
+/-! ### `capitalize()` and `normalize()`: the transformations that read the parser's context -/
+
+/-- **utf8_ctx_agrees.** `capitalize()` / `normalize()` on valid text, for EVERY character table with categories: the object
+built from the RFC 3629 encoding of any non-zero scalar values holds, after the call, exactly `outC` of its characters — the
+left-to-right pass over the CHARACTERS (not bytes) that starts in the context "after a space" and gives each character its
+table image chosen by the category of the last character STORED before it (`doneC`: capitalize = `upper` after a space /
+breaker / control character and `lower` elsewhere; normalize = one blank for a run of spaces and breakers, nothing for a
+leading one and for control characters, `lower` elsewhere; a character without page is kept and ends the word context) —
+the parser is at rest, `rawsize` is the number of bytes of the new text, the installed transformation is untouched, and
+`count()` never grows. -/
+theorem utf8_ctx_agrees (cm : CharMapC) (f : FuncC) (cps : List Nat) (h : ValidCps cps) (g : Func) :
+    transformC cm f { u := ofBytes (encodeAll cps), func := g }
+      = { u := { parser := .p0, store := (outC cm f CTX0 (cps.map pack)).1, rawSize := bytesOf (outC cm f CTX0 (cps.map pack)).1 },
+          func := g }
+    ∧ (transformC cm f { u := ofBytes (encodeAll cps), func := g }).u.store.length ≤ cps.length := by
+  have hs : (ofBytes (encodeAll cps)).store = cps.map pack := by rw [decode_valid_agrees_partial cps h]
+  have key : transformC cm f { u := ofBytes (encodeAll cps), func := g }
+      = { u := { parser := .p0, store := (outC cm f CTX0 (cps.map pack)).1, rawSize := bytesOf (outC cm f CTX0 (cps.map pack)).1 },
+          func := g } := by
+    have e := transformC_eq cm f { u := ofBytes (encodeAll cps), func := g }
+    have eu : (transformC cm f { u := ofBytes (encodeAll cps), func := g }).u
+        = { parser := .p0, store := (outC cm f CTX0 (cps.map pack)).1, rawSize := bytesOf (outC cm f CTX0 (cps.map pack)).1 } := by
+      rw [e.1]
+      simp only [hs]
+      rw [reread_bytes cps h, foldl_writeByteC]
+      obtain ⟨h1, h2⟩ := emit_encodeAll cps h
+      simp only [h1, h2]
+      simp
+    cases ht : transformC cm f { u := ofBytes (encodeAll cps), func := g } with
+    | mk u fn =>
+      rw [ht] at eu e
+      simp only at eu e
+      rw [eu, e.2]
+  refine ⟨key, ?_⟩
+  rw [key]
+  have := outC_length_le cm f (cps.map pack) CTX0
+  simpa using this
+
+/-- a table with categories: blank and LF are spaces / breakers (1, 3), TAB is a control character (4), `a` `b` have the
+    upper-case images `A` `B`, `é` (C3 A9) has `É` (C3 89); other ASCII maps to itself; nothing else has a page -/
+def cmExC : CharMapC := fun u =>
+  if u = 0x20 then some (0x20, 0x20, 1) else if u = 0x0a then some (0x0a, 0x0a, 3) else if u = 0x09 then some (0x09, 0x09, 4)
+  else if u = 0x61 ∨ u = 0x41 then some (0x41, 0x61, 0) else if u = 0x62 ∨ u = 0x42 then some (0x42, 0x62, 0)
+  else if u = 0xC3A9 ∨ u = 0xC389 then some (0xC389, 0xC3A9, 0) else if u < 0x80 then some (u, u, 0) else none
+
+/-- `"ab  B\na\tb€a é"`: capitalize gives `Ab  B\nA\tB€a É` (a character without page — € — ends the word context: the `a`
+    behind it stays lower case); normalize gives `ab b a b€a é` (runs of blanks / LF become one blank, TAB vanishes and
+    does not separate) -/
+example : ValidCps [0x61, 0x62, 0x20, 0x20, 0x42, 0x0a, 0x61, 0x09, 0x62, 0x20AC, 0x61, 0x20, 0xE9]
+    ∧ (transformC cmExC .capitalize { u := ofBytes (encodeAll [0x61, 0x62, 0x20, 0x20, 0x42, 0x0a, 0x61, 0x09, 0x62, 0x20AC, 0x61, 0x20, 0xE9]) }).u.store
+        = [0x41, 0x62, 0x20, 0x20, 0x42, 0x0a, 0x41, 0x09, 0x42, 0xE282AC, 0x61, 0x20, 0xC389]
+    ∧ (transformC cmExC .normalize { u := ofBytes (encodeAll [0x20, 0x61, 0x62, 0x20, 0x20, 0x42, 0x0a, 0x61, 0x09, 0x62, 0x20AC, 0x61, 0x20, 0xE9]) }).u.store
+        = [0x61, 0x62, 0x20, 0x62, 0x20, 0x61, 0x62, 0xE282AC, 0x61, 0x20, 0xC3A9] := by
+  refine ⟨?_, by decide +kernel, by decide +kernel⟩
+  intro c hc
+  simp at hc
+  rcases hc with rfl | rfl | rfl | rfl | rfl | rfl | rfl | rfl | rfl | rfl | rfl | rfl | rfl <;> decide
+
+/-- **utf8_ctx_total.** For EVERY table with categories, every object state and every call of the `u8t` alphabet
+(`capitalize`, `normalize` and the calls of `utf8_case_total`): the representation invariant is kept and the transformation
+installed in the object's parser is not changed. -/
+theorem utf8_ctx_total (cm : CharMapC) (tr : CharMapT) (t : TStr) (op : TOpC) (hi : Inv t.u) :
+    Inv (tstepC cm tr t op).u ∧ (tstepC cm tr t op).func = t.func := by
+  cases op with
+  | base op => exact ⟨utf8_case_total cm.toCM t op hi, tstep_func cm.toCM t op⟩
+  | capitalize => exact ⟨transformC_inv cm .capitalize t, rfl⟩
+  | normalize => exact ⟨transformC_inv cm .normalize t, rfl⟩
+  | translit => exact ⟨transformT_inv (trCM tr) .upper t, rfl⟩
+
+/-- **utf8_translit_agrees.** `translit()` on valid text, for EVERY `translate` column: each character is replaced by ONE
+stored element holding the packed bytes of its `translate` string (the character itself when there is no page for it), in
+order, characters with an empty string vanish; the parser is at rest, `rawsize` is the number of bytes of the new text,
+the installed transformation is untouched; `count()` never grows — a replacement of several letters counts as one element. -/
+theorem utf8_translit_agrees (tr : CharMapT) (cps : List Nat) (h : ValidCps cps) (g : Func) :
+    translitT tr { u := ofBytes (encodeAll cps), func := g }
+      = { u := { parser := .p0, store := ((cps.map pack).map fun u => (tr u).getD u).filter (· ≠ 0),
+                 rawSize := bytesOf (((cps.map pack).map fun u => (tr u).getD u).filter (· ≠ 0)) }, func := g }
+    ∧ (translitT tr { u := ofBytes (encodeAll cps), func := g }).u.store.length ≤ cps.length := by
+  have e : ∀ l : List Nat, outF (trCM tr) .upper l = (l.map fun u => (tr u).getD u).filter (· ≠ 0) := by
+    intro l
+    simp only [outF]
+    congr 1
+    apply List.map_congr_left
+    intro u _
+    simp only [applyF, trCM]
+    cases tr u <;> rfl
+  have := utf8_case_agrees (trCM tr) .upper cps h g
+  rw [e] at this
+  exact ⟨this.1, this.2.1⟩
+
+/-- `ß` (C3 9F) ↦ `ss` (one element 0x7373, 2 bytes), `é` ↦ `e`, `€` has no page and is kept, `x` has an empty
+    translate string and vanishes: `aßé€x` -> elements `a`, `ss`, `e`, `€`: count 4, 7 bytes, string `asse€`;
+    a following `toupper()` re-reads the bytes: `s`, `s` are two characters then (count 5) -/
+def trEx : CharMapT := fun u =>
+  if u = 0xC39F then some 0x7373 else if u = 0xC3A9 then some 0x65 else if u = 0x78 then some 0 else if u < 0x80 then some u else none
+
+example : ValidCps [0x61, 0xDF, 0xE9, 0x20AC, 0x78]
+    ∧ (translitT trEx { u := ofBytes (encodeAll [0x61, 0xDF, 0xE9, 0x20AC, 0x78]) }).u
+        = { parser := .p0, store := [0x61, 0x7373, 0x65, 0xE282AC], rawSize := 7 }
+    ∧ (transformT cmEx .upper (translitT trEx { u := ofBytes (encodeAll [0x61, 0xDF, 0xE9, 0x20AC, 0x78]) })).u.store
+        = [0x41, 0x73, 0x73, 0x65, 0xE282AC] := by
+  refine ⟨?_, by decide +kernel, by decide +kernel⟩
+  intro c hc
+  simp at hc
+  rcases hc with rfl | rfl | rfl | rfl | rfl <;> decide
+
+example : Inv ({ u := ofBytes [0x61, 0xFF, 0x20, 0xC3], func := .nop } : TStr).u := ofBytes_inv _
 
 end utf8
 
